@@ -20,7 +20,7 @@ def index():
     return res
 
 
-def cargo_test(tests, scratch, timeout=1500, extra_env=None):
+def cargo_test(tests, scratch, timeout=1500, extra_env=None, test_timeout=None):
     """run the named replay tests of the real crate (hooks on); returns {test: (passed, log)}"""
     env = dict(os.environ)
     env["RUST_BACKTRACE"] = "0"
@@ -40,11 +40,13 @@ def cargo_test(tests, scratch, timeout=1500, extra_env=None):
         cmd = ["cargo", "test", "--offline", "--lib", "--features", FEATURES, t, "--", "--exact", "--nocapture", "--test-threads", "1"]
         p = subprocess.Popen(cmd, cwd=REPO, env=env, stdout=subprocess.PIPE, stderr=subprocess.STDOUT, text=True, start_new_session=True)
         try:
-            out, _ = p.communicate(timeout=timeout)
+            # the binary is already built (isolation step above): a scenario normally ends within seconds, the real-time
+            # ones within ~15 s; a test still running after VERIF_REPLAY_TIMEOUT s hangs on this tree -> "did not run"
+            out, _ = p.communicate(timeout=test_timeout or int(os.environ.get("VERIF_REPLAY_TIMEOUT", "300")))
         except subprocess.TimeoutExpired:
             os.killpg(p.pid, signal.SIGKILL)
             out, _ = p.communicate()
-            res[t] = (None, "TIMEOUT\n" + out[-3000:])
+            res[t] = (None, "TIMEOUT (the scenario did not end on this tree)\n" + out[-3000:])
             continue
         ran = "running 1 test" in out
         passed = ran and "test result: ok. 1 passed" in out
